@@ -2181,7 +2181,7 @@ class Connection_Manager( Object ):
         unique			= addr[0],addr[1],fo.O_T.connection_ID # eg ("1.2.3.4",12345,234567)
         if unique in self.forwards:
             ufo,uci		= self.forwards[unique]
-            assert all( ufo.getattr( a ) == fo.getattr( a )
+            assert all( ufo.get( a ) == fo.get( a )
                         for a in ( 'O_T.NCP', 'O_T.RPI', 'T_O.NCP', 'T_O.RPI', 'transport_class_triggers', 'connection_path' )), \
                 "Already have an incompatible Forward Open from device Vendor: %s, Serial: %s, Connection Serial: %s" % triplet
         else:
